@@ -93,7 +93,7 @@ theorem le_nextPow2 (m : ℕ) : m ≤ nextPow2 m := by
   · have := Nat.lt_log2_self (n := m - 1)
     omega
 
-theorem foldl_max_ge (f : Degree → ℕ) (ds : List Degree) (a : ℕ) :
+theorem foldl_max_ge {β : Type} (f : β → ℕ) (ds : List β) (a : ℕ) :
     a ≤ ds.foldl (fun r d => if f d > r then f d else r) a ∧
     ∀ d ∈ ds, f d ≤ ds.foldl (fun r d => if f d > r then f d else r) a := by
   induction ds generalizing a with
@@ -109,7 +109,7 @@ theorem foldl_max_ge (f : Degree → ℕ) (ds : List Degree) (a : ℕ) :
       · omega
       · exact (ih _).2 d hd
 
-theorem foldl_max_mem (f : Degree → ℕ) (ds : List Degree) (a : ℕ) :
+theorem foldl_max_mem {β : Type} (f : β → ℕ) (ds : List β) (a : ℕ) :
     ds.foldl (fun r d => if f d > r then f d else r) a = a ∨
     ∃ d ∈ ds, ds.foldl (fun r d => if f d > r then f d else r) a = f d := by
   induction ds generalizing a with
